@@ -310,6 +310,9 @@ structure PState where
   inflight : Option Inflight := none
   taken : List Snap := []
   failed : List Nat := []
+  /-- staging files stranded in the directory by earlier crashes (nothing removes
+  `local.tmp.*`; every directory walk parses them) -/
+  orphans : List (List Str) := []
   /-- ghost: a directory reload (`readBlocklists`, which uses the non-persisting
   `set`) has changed memory since the last snapshot was taken -/
   dirty : Bool := false
@@ -341,15 +344,19 @@ def failInflight (s : PState) (f : Inflight) : PState :=
   { s with inflight := none, failed := f.snap.version :: s.failed }
 
 /-- memory after `readBlocklists` over a directory that holds the main file and
-(possibly) the staging file of a `persist` in progress; `filepath.Walk` visits
-`local` before `local.tmp.*`.  Entries are merged with the non-persisting `set`. -/
-def dirLoadMem (mem : Mem) (main : Option (List Str)) (temp : Option (List Str)) : Mem :=
+staging files (stranded ones, the one of a `persist` in progress); `filepath.Walk`
+visits `local` before `local.tmp.*`.  Entries are merged with the non-persisting `set`. -/
+def dirLoadMem (mem : Mem) (main : Option (List Str)) (temps : List (List Str)) : Mem :=
   let m1 := match main with
     | some ls => parseHostFile mem (fileText ls)
     | none => mem
-  match temp with
-  | some ls => parseHostFile m1 (fileText ls)
-  | none => m1
+  temps.foldl (fun m ls => parseHostFile m (fileText ls)) m1
+
+/-- the staging file a crash right now would strand. -/
+def strandedNow (s : PState) : List (List Str) :=
+  match s.inflight with
+  | some f => if f.stage = .renamed then [] else [f.written]
+  | none => []
 
 def step (s : PState) : Step → PState
   | .mutate op =>
@@ -407,11 +414,8 @@ def step (s : PState) : Step → PState
       if f.stage = .renamed then { s with lastPersisted := f.snap.version, inflight := none } else s
     | none => s
   | .dirLoad =>
-    -- reads `local` and the staging file; writes NO file (it only deletes `*.tmp` downloads)
-    let temp := match s.inflight with
-      | some f => if f.stage = .renamed then none else some f.written
-      | none => none
-    let mem' := dirLoadMem s.mem s.main temp
+    -- reads `local` and the staging files; writes NO file (it only deletes `*.tmp` downloads)
+    let mem' := dirLoadMem s.mem s.main (s.orphans ++ strandedNow s)
     { s with mem := mem', dirty := s.dirty || decide (mem' ≠ s.mem) }
 
 def run (s : PState) (steps : List Step) : PState := steps.foldl step s
@@ -422,6 +426,21 @@ def crashImage (s : PState) : Option (List Str) × Option (List Str) :=
   (s.main, match s.inflight with
            | some f => if f.stage = .renamed then none else some f.written
            | none => none)
+
+/-- **Kill and restart**: the process dies now and `New` runs over what is on
+disk (`loadInitial`: whitelist, `cfg.Blocklist`, then `readBlocklists` over the
+directory).  Memory is rebuilt from the configuration, the main file and every
+staging file in the directory; no file is written, the stranded staging file
+stays where it is. -/
+def restart (whitelist cfgBlocklist : List Str) (s : PState) : PState :=
+  let orph := s.orphans ++ strandedNow s
+  { mem := dirLoadMem (loadConfig whitelist cfgBlocklist) s.main orph, main := s.main, orphans := orph }
+
+/-- a whole life: the first process runs `steps0`, then each element of `epochs`
+is "killed at that point, restarted, ran these steps". -/
+def runEpochs (whitelist cfgBlocklist : List Str) (s0 : PState) (steps0 : List Step)
+    (epochs : List (List Step)) : PState :=
+  epochs.foldl (fun s steps => run (restart whitelist cfgBlocklist s) steps) (run s0 steps0)
 
 /-- the whole `persist(snap)` call for `pending[i]`, failing at `failAt`
 (`0` = no failure, `1` = CreateTemp, `2` = first write, `3` = sync, `4` = close,
@@ -439,6 +458,57 @@ def persistSteps (s : PState) (i : Nat) (failAt : Nat) : List Step :=
        else [.sync true] ++
         (if failAt = 4 then [.close false]
          else [.close true] ++ (if failAt = 5 then [.rename false] else [.rename true, .commit])))
+
+/-! ### Part 5b — the HTTP API in front of the list (api/api.go) -/
+
+/-- `(*BlockList).Get`: the exact key in `m` (wildcard suffixes are not looked at). -/
+def getExact (b : Mem) (key : Str) : Bool := decide (canonical key ∈ b.m)
+
+/-- the six `/api/v1/block/...` routes with their decoded argument. -/
+inductive ApiReq
+  | existsKey (k : Str)
+  | getKey (k : Str)
+  | setKey (k : Str)
+  | removeKey (k : Str)
+  | setBatch (ks : List Str)
+  | removeBatch (ks : List Str)
+deriving Repr, DecidableEq
+
+/-- the mutation a request stands for, if any (a batch with no keys is refused with 400). -/
+def apiToOp : ApiReq → Option MutOp
+  | .setKey k => some (.set k)
+  | .removeKey k => some (.remove k)
+  | .setBatch ks => if ks.isEmpty then none else some (.setBatch ks)
+  | .removeBatch ks => if ks.isEmpty then none else some (.removeBatch ks)
+  | _ => none
+
+/-- HTTP status of a request (`checkToken` first, then the handler). -/
+def apiStatus (authorized : Bool) (b : Mem) : ApiReq → Nat
+  | req =>
+    if !authorized then 401 else
+    match req with
+    | .getKey k => if getExact b k then 200 else 404
+    | .setBatch ks => if ks.isEmpty then 400 else 200
+    | .removeBatch ks => if ks.isEmpty then 400 else 200
+    | _ => 200
+
+/-- the number in the JSON answer (`success`/`exists` as 0/1, `added`, `removed`). -/
+def apiValue (b : Mem) : ApiReq → Nat
+  | .existsKey k => if «exists» b k then 1 else 0
+  | .getKey k => if getExact b k then 1 else 0
+  | .setKey k => applyOpCount b (.set k)
+  | .removeKey k => applyOpCount b (.remove k)
+  | .setBatch ks => applyOpCount b (.setBatch ks)
+  | .removeBatch ks => applyOpCount b (.removeBatch ks)
+
+/-- what a request does to the process: an authorized mutating request is one
+`mutate` step (its `persist` follows as further steps); everything else is no step. -/
+def apiStep (authorized : Bool) (s : PState) (req : ApiReq) : PState :=
+  if authorized then
+    match apiToOp req with
+    | some op => step s (.mutate op)
+    | none => s
+  else s
 
 /-! ### Part 6 — the specification on labels
 
